@@ -27,8 +27,28 @@ class WeightModel:
                 if not roots or tgt[0] != "call":
                     continue
                 g = roots[0]
-                kind, amount = classify_write(rv, g)
-                self.sites.append({"fn": f, "bb": b, "idx": i, "kind": kind, "amount": amount, "rv": rv, "guard": g})
+                kind, amount, exact = classify_write(rv, g)
+                self.sites.append({"fn": f, "bb": b, "idx": i, "kind": kind, "amount": amount, "rv": rv, "guard": g, "exact": exact})
+        # delta helpers: a function whose only effect on the total is `total (+|-)= <its parameter>` is not a site
+        # itself; each of its call sites is, with the argument as the amount (sign taken from a leading negation)
+        self.helper_sites = []
+        for s in list(self.sites):
+            g, amt = s["fn"], s["amount"]
+            if s["kind"] in ("increase", "decrease") and isinstance(amt, tuple) and amt[0] == "param" and g.kind != "Closure" \
+                    and len([x for x in self.sites if x["fn"] is g]) == 1:
+                cs = self.callers(g.name)
+                if not cs:
+                    continue
+                self.sites.remove(s)
+                self.helper_sites.append(s)
+                for caller, bb, t in cs:
+                    arg = caller.op_origin(t["args"][amt[1] - 1])
+                    kind = s["kind"]
+                    if arg[0] == "unop" and arg[1] == "Neg":
+                        arg = arg[2]
+                        kind = "decrease" if kind == "increase" else "increase"
+                    self.sites.append({"fn": caller, "bb": bb, "idx": None, "kind": kind, "amount": arg, "rv": s["rv"], "guard": s["guard"],
+                                       "via": g.name, "exact": s.get("exact", True)})
         self.inc_sites = [s for s in self.sites if s["kind"] == "increase"]
         self.dec_sites = [s for s in self.sites if s["kind"] == "decrease"]
         # --- the space query Q ------------------------------------------------------------------
@@ -207,17 +227,29 @@ def classify_write(rv, guard_call):
     """rv stored through the WU write guard -> (kind, amount expr)"""
     def is_guard(e):
         return isinstance(e, tuple) and e[0] == "call" and strip_site(e) == strip_site(guard_call)
-    if rv[0] == "binop" and rv[1] == "Add":
-        a, b = rv[2], rv[3]
-        if is_guard(a):
-            return "increase", b
-        if is_guard(b):
-            return "increase", a
-    if rv[0] == "binop" and rv[1] == "Sub" and is_guard(rv[2]):
-        return "decrease", rv[3]
+    def direct(e):
+        if e[0] == "binop" and e[1] == "Add":
+            a, b = e[2], e[3]
+            if is_guard(a):
+                return "increase", b
+            if is_guard(b):
+                return "increase", a
+        if e[0] == "binop" and e[1] == "Sub" and is_guard(e[2]):
+            return "decrease", e[3]
+        return None
+    d = direct(rv)
+    if d:
+        return d[0], d[1], True
     if rv[0] == "const" and rv[1] == 0:
-        return "reset", rv
-    return "unclassified", rv
+        return "reset", rv, True
+    # `total (+|-) x` wrapped in something else (clamp, min, max, saturating_*): the applied amount is not exactly x
+    for sub in subexprs(rv):
+        d = direct(sub)
+        if d:
+            return d[0], d[1], False
+    if rv[0] == "call" and ("saturating_add" in rv[1] or "saturating_sub" in rv[1]) and rv[2] and is_guard(rv[2][0]):
+        return ("increase" if "add" in rv[1] else "decrease"), rv[2][1], False
+    return "unclassified", rv, False
 
 
 def abstract_args(W, args):
